@@ -98,6 +98,19 @@ type obSummary struct {
 
 func check(prop, tier, only, repoDir, verifDir string, workers, par, seed int, dump string, verbose, noEvidence bool) int {
 	t0 := time.Now()
+	// watchdog: a check never hangs; past the wall limit it is reported as broken, not as passed
+	limit := 60 * time.Minute
+	if tier == "thorough" {
+		limit = 5 * time.Hour
+	}
+	if v, err := strconv.Atoi(os.Getenv("VERIF_MAX_WALL_MIN")); err == nil && v > 0 {
+		limit = time.Duration(v) * time.Minute
+	}
+	go func() {
+		time.Sleep(limit)
+		fmt.Printf("BROKEN-CHECK: property=%s tier=%s exceeded its wall limit of %v (no verdict)\n", prop, tier, limit)
+		os.Exit(2)
+	}()
 	ws, err := setupWorkspace(repoDir, verifDir, prop)
 	if err != nil {
 		fmt.Println("setup failed:", err)
